@@ -28,7 +28,7 @@ def operator_sources(name, g, rnd, scale):
     """one quantified formula per SMT-LIB operator (from the C05 grid) with a variable inside"""
     nts = [k for k in g if k != "<start>"]
     out = []
-    terms = [t for fam, t in smt.grid(rnd.randrange(10 ** 6), 0.15 * scale)]
+    terms = [t for fam, t in smt.grid(rnd.randrange(10 ** 6), 0.15 * scale) if fam != "bignum"]
     rnd.shuffle(terms)
     seen = set()
     from harness.drivers.c05 import sort_of
